@@ -770,4 +770,3 @@ func c17Oracle(cs c17Case, decoded []cogyaml.Veneers, out []ast.Builder) string 
 	return v
 }
 
-func c17Pinned(name string) c17Case { return c17Case{} }
